@@ -93,3 +93,36 @@ def run(ctx, res):
                       "trace_action_coverage": o.coverage})
     res.assumptions = ["denotation of the emitted TypeScript subset as defined in TsTypes.tla (no TypeScript compiler is available offline)",
                        "one-level abstraction for input objects: the Variables type is judged together with every __OperationInput alias"]
+
+
+def selftest(ctx):
+    """Binding demonstration: corrupt the recorded Variables type (required -> optional; `| null` dropped); both must be rejected."""
+    import copy
+    vlib.build_harness()
+    vlib.build_cli()
+    cases = [make_case(ctx, i) for i in range(12)]
+    vlib.write_ndjson(ctx.path("cases.ndjson"), cases)
+    vlib.run_harness(["typegen", vlib.CLI_BIN, ctx.path("cases.ndjson"), ctx.path("events.ndjson"), ctx.path("proj"), "4"])
+    muts = []
+    for e in vlib.read_ndjson(ctx.path("events.ndjson")):
+        vt = [st for st in e["opTs"][0]["stmts"] if st["k"] == "type" and st["name"] == e["variablesTypeName"]]
+        if not vt:
+            continue
+        a = copy.deepcopy(e)
+        st = [x for x in a["opTs"][0]["stmts"] if x["k"] == "type" and x["name"] == e["variablesTypeName"]][0]
+        required = {v["name"] for v in e["opFiles"][0]["doc"]["defs"][0]["vars"] if v["type"]["k"] == "nn" and not v["hasDefault"]}
+        if len(muts) == 0 and required and c10.corrupt_first([st], lambda t: t["k"] == "obj" and any(f["key"] in required for f in t["fs"]),
+                                                lambda t: [f for f in t["fs"] if f["key"] in required][0].__setitem__("opt", True)):
+            a["id"] = "mut-optional"
+            muts.append(a)
+            continue
+        if len(muts) == 1 and c10.corrupt_first([st], lambda t: t["k"] == "union" and any(x["k"] == "kw" and x["n"] == "null" for x in t["ts"]),
+                                                lambda t: t.__setitem__("ts", [x for x in t["ts"] if not (x["k"] == "kw" and x["n"] in ("null", "undefined"))] * 2)):
+            a["id"] = "mut-nonnull"
+            muts.append(a)
+    o = vlib.validate_trace("Trace_C09", "Trace_C09.cfg", muts, workdir=ctx.work, nshards=1)
+    got = {(i["id"], i["cls"]) for i in o.items}
+    ok = len(muts) == 2 and ("mut-optional", "variables-too-loose") in got and ("mut-nonnull", "variables-too-strict") in got
+    print("SELFTEST C09: %d corrupted Variables types, items %s -> %s" % (len(muts), sorted(got), "ok" if ok else "FAILED"))
+    ctx.cleanup()
+    return 0 if ok else 2
